@@ -63,6 +63,8 @@ def run(ctx, res):
     res.guard(RR.rule_pairs, prog, res, ["video_sink_thread", "process_data", "acquire_stop"])
     res.require_min("R-CONSUME", 2)
     res.require_min("L-REFUSE-WAKES", 1)
+    res.guard(RR.rule_start_unwind, prog, res)
+    res.require_min("R-START-UNWIND", 9)
     res.require_min("PAIR", 4)
     from .. import platformrules as PR
     PR.run_all(prog, la, res)
